@@ -275,6 +275,9 @@ int AsmContext::assemble()
       // If n is 4, then this is ending a .else directive.
       if (n == 4) { return 2; }
 
+      // If n is 5, then this is the .endif of the branch being assembled.
+      if (n == 5) { return 5; }
+
       // Otherwise there is a problem.
       if (n != 0) { return -1; }
     }
